@@ -69,6 +69,13 @@ pub fn run_c14(a: &Args) {
         st.evaluations += 1;
         match tread(b) { Some(Some(t)) => if t.code() != *c { st.fail(format!("[C14] the wire form of {c} decodes to {}", t.code()), hex(&b)); }, Some(None) => st.fail(format!("[C14] the wire form of configuration {c} (its short code NUL-padded) does not decode"), hex(&b)), None => st.fail("[C14] Track decoding panics".into(), hex(&b)) }
     }
+    // a configuration is its 6 bytes however the reader hands them over (1, 3 or 4 bytes per read() call)
+    for c in crate::gen::tracks::TRACK_CODES.iter() { for k in [1usize, 3, 4] {
+        let mut v = c.as_bytes().to_vec(); v.resize(6, 0); st.evaluations += 1;
+        let whole = tread([v[0], v[1], v[2], v[3], v[4], v[5]]).flatten().map(|t| t.code().to_string());
+        let part = guard(|| Track::read_le(&mut Dribble { inner: Cursor::new(v.clone()), k }).ok()).flatten().map(|t| t.code().to_string());
+        if whole != part { st.fail(format!("[C14] the wire form of {c} read {k} byte(s) at a time decodes to {:?}, in one piece to {:?}", part, whole), format!("dribble {k} {c}")); }
+    } }
     // distinct configurations are distinct VALUES: equality tells all of them apart (a host list or statistics keyed by track)
     {
         let all: Vec<(String, Track)> = crate::gen::tracks::TRACK_CODES.iter().filter_map(|c| { let mut v = c.as_bytes().to_vec(); v.resize(6, 0); tread([v[0], v[1], v[2], v[3], v[4], v[5]]).flatten().map(|t| (c.to_string(), t)) }).collect();
